@@ -153,7 +153,7 @@ class NoneSem:
 
 class Row:
     def __init__(self, prop, dom, ood=(), eq="=", none=NO, affects=(), expect=None, get=None,
-                 set=None, src="", pre=None):
+                 set=None, src="", pre=None, default=None):
         self.prop = prop
         self.dom = dom
         self.ood = list(ood)
@@ -164,6 +164,10 @@ class Row:
         self.get = get                # fn(obj, chain); default getattr(obj, prop)
         self.set = set                # fn(obj, value); default setattr(obj, prop, value)
         self.src = src
+        # (default value, probe): the stored attribute is an xmlchemy OptionalAttribute with that
+        # default - "Assigning the default value causes the attribute to be removed from the
+        # element" (oxml/xmlchemy.py:194-198, the mechanism the property anchors); probe as in NoneSem
+        self.default = default
         self.pre = pre                # fn(before) -> bool: row applicable in this state (documented precondition)
 
 
@@ -585,24 +589,27 @@ OOD_INT = [1.5, "12", None, BIG, -BIG]      # for RequiredAttribute integer coor
 OOD_BOOL = ["x", 2, None]                   # for XsdBoolean attributes without None semantics
 
 
-def geometry_rows(position_affects=(), size_affects=(), rotation=True, name=True):
+def geometry_rows(position_affects=(), size_affects=(), rotation=True, name=True,
+                  lo=COORD_LO, hi=COORD_HI):
     """left/top/width/height(/rotation/name) of BaseShape (shapes/base.py:97-215).
     Domain = ST_Coordinate / ST_PositiveCoordinate of the schema (oxml/simpletypes.py:342-345,541-549)."""
     rows = [
-        Row("left", D_int(COORD_LO, COORD_HI, extra_bnd=(0, -1, 1)), OOD_INT, affects=position_affects,
+        Row("left", D_int(lo, hi, extra_bnd=(0, -1, 1)), OOD_INT, affects=position_affects,
             src="shapes/base.py:121"),
-        Row("top", D_int(COORD_LO, COORD_HI, extra_bnd=(0, -1, 1)), OOD_INT, affects=position_affects,
+        Row("top", D_int(lo, hi, extra_bnd=(0, -1, 1)), OOD_INT, affects=position_affects,
             src="shapes/base.py:201"),
-        Row("width", D_int(0, COORD_HI, extra_bnd=(1,)), OOD_INT + [-1], affects=size_affects,
+        Row("width", D_int(0, hi, extra_bnd=(1,)), OOD_INT + [-1], affects=size_affects,
             src="shapes/base.py:213"),
-        Row("height", D_int(0, COORD_HI, extra_bnd=(1,)), OOD_INT + [-1], affects=size_affects,
+        Row("height", D_int(0, hi, extra_bnd=(1,)), OOD_INT + [-1], affects=size_affects,
             src="shapes/base.py:101"),
     ]
     if rotation:
         # "Read/write float. Negative values can be assigned ... -45.0 will change setting to 315.0"
         rows.append(Row("rotation", D_float(-3600.0, 3600.0, quantum=1 / 60000.0,
                                             extra_bnd=(0.0, 360.0, -360.0, 359.99999, -45.0)),
-                        ["x", None, {"t": "tuple", "v": [1]}], eq="deg", src="shapes/base.py:163"))
+                        ["x", None, {"t": "tuple", "v": [1]}], eq="deg", src="shapes/base.py:163",
+                        default=(0.0, lambda o, ch: o._element.xfrm is not None
+                                 and o._element.xfrm.get("rot") is not None)))
     if name:
         rows.append(Row("name", D_str(), [], src="shapes/base.py:130"))
     return rows
@@ -810,21 +817,29 @@ def build_kinds():
     # ---- Picture (shapes/picture.py:27-73,146-176): crops ST_Percentage, mask MSO_SHAPE
     crop_dom = D_float(-21474.83648, 21474.83647, quantum=1e-5, extra_bnd=(0.0, 1.0, 0.25, -0.25, 0))
     crop_ood = [21474.84, -21474.84, 1e9, "x", None]
+
+    def _srcrect(letter):
+        return lambda o, ch: (o._pic.blipFill.srcRect is not None
+                              and o._pic.blipFill.srcRect.get(letter) is not None)
+
     K.append(Kind("picture", "Picture", b_picture, locate=loc_picture, rows=geometry_rows() + [
-        Row("crop_left", crop_dom, crop_ood, eq="f5", src="shapes/picture.py:47"),
-        Row("crop_top", crop_dom, crop_ood, eq="f5", src="shapes/picture.py:72"),
-        Row("crop_right", crop_dom, crop_ood, eq="f5", src="shapes/picture.py:59"),
-        Row("crop_bottom", crop_dom, crop_ood, eq="f5", src="shapes/picture.py:35"),
+        Row("crop_left", crop_dom, crop_ood, eq="f5", default=(0.0, _srcrect("l")), src="shapes/picture.py:47"),
+        Row("crop_top", crop_dom, crop_ood, eq="f5", default=(0.0, _srcrect("t")), src="shapes/picture.py:72"),
+        Row("crop_right", crop_dom, crop_ood, eq="f5", default=(0.0, _srcrect("r")), src="shapes/picture.py:59"),
+        Row("crop_bottom", crop_dom, crop_ood, eq="f5", default=(0.0, _srcrect("b")), src="shapes/picture.py:35"),
         Row("auto_shape_type", D_enum("MSO_AUTO_SHAPE_TYPE"), [999983, "rect", None],
             src="shapes/picture.py:167"),
     ]))
 
     # ---- Connector (shapes/connector.py:45-213): begin/end points; the bounding box follows them
-    pt = D_int(-13 * 10 ** 12, 13 * 10 ** 12, extra_bnd=(0, 914400, 2743200, 1828800))
+    # the end points move the bounding box (x, x+cx): all coordinates of this kind are kept within
+    # +-5e12 so that no sum or difference leaves ST_Coordinate / ST_PositiveCoordinate
+    pt = D_int(-5 * 10 ** 12, 5 * 10 ** 12, extra_bnd=(0, 914400, 2743200, 1828800))
     bbox = ("left", "top", "width", "height")
     K.append(Kind("connector", "Connector", b_connector, locate=loc_connector,
                   rows=geometry_rows(position_affects=("begin_x", "begin_y", "end_x", "end_y"),
-                                     size_affects=("begin_x", "begin_y", "end_x", "end_y")) + [
+                                     size_affects=("begin_x", "begin_y", "end_x", "end_y"),
+                                     lo=-5 * 10 ** 12, hi=5 * 10 ** 12) + [
         Row("begin_x", pt, [], affects=bbox, src="shapes/connector.py:57"),
         Row("begin_y", pt, [], affects=bbox, src="shapes/connector.py:98"),
         Row("end_x", pt, [], affects=bbox, src="shapes/connector.py:154"),
@@ -836,10 +851,10 @@ def build_kinds():
     m_dom = lambda d: D_int(INT32_LO, INT32_HI, extra_bnd=(0, d, d - 1, d + 1, 91440, 45720))  # noqa: E731
     K.append(Kind("textframe", "TextFrame", b_textbox, sub=SH("text_frame"), locate=loc_text_shape,
                   rows=[
-        Row("margin_left", m_dom(91440), m_ood, src="text/text.py:123"),
-        Row("margin_top", m_dom(45720), m_ood, src="text/text.py:141"),
-        Row("margin_right", m_dom(91440), m_ood, src="text/text.py:132"),
-        Row("margin_bottom", m_dom(45720), m_ood, src="text/text.py:114"),
+        Row("margin_left", m_dom(91440), m_ood, default=(91440, _attr(_bodyPr, "lIns")), src="text/text.py:123"),
+        Row("margin_top", m_dom(45720), m_ood, default=(45720, _attr(_bodyPr, "tIns")), src="text/text.py:141"),
+        Row("margin_right", m_dom(91440), m_ood, default=(91440, _attr(_bodyPr, "rIns")), src="text/text.py:132"),
+        Row("margin_bottom", m_dom(45720), m_ood, default=(45720, _attr(_bodyPr, "bIns")), src="text/text.py:114"),
         Row("word_wrap", D_bool(), ["x", 2], none=NoneSem(None, _attr(_bodyPr, "wrap")),
             src="text/text.py:208"),
         Row("auto_size", D_enum("MSO_AUTO_SIZE", exclude=("MIXED",)), [999983, "x"],
@@ -858,7 +873,8 @@ def build_kinds():
         Row("alignment", D_enum("PP_PARAGRAPH_ALIGNMENT"),
             [E("PP_PARAGRAPH_ALIGNMENT", "MIXED"), 999983, "x"],
             none=NoneSem(None, _attr(_pPr, "algn")), src="text/text.py:494"),
-        Row("level", D_int(0, 8), [-1, 9, 1.5, "1", None], src="text/text.py:527"),
+        Row("level", D_int(0, 8), [-1, 9, 1.5, "1", None], default=(0, _attr(_pPr, "lvl")),
+            src="text/text.py:527"),
         # number -> multiples of lines (ST_TextSpacingPercent 0..132), Length -> fixed height
         Row("line_spacing", D_union(D_float(0.0, 132.0, quantum=1e-5, extra_bnd=(1.0, 1.5, 2, 0.9)),
                                     D_len(0, 20116800, quantum=127, extra_bnd=(152400, 127))),
@@ -972,7 +988,7 @@ def build_kinds():
     # ---- LineFormat (dml/line.py:33-90)
     K.append(Kind("line", "LineFormat", b_autoshape, sub=SH("line"), locate=loc_autoshape, rows=[
         Row("width", D_int(0, 20116800, extra_bnd=(12700, 9525, 1)), [-1, 20116801, 1.5, "x"],
-            src="dml/line.py:83"),
+            default=(0, _attr(_ln, "w")), src="dml/line.py:83"),
         Row("dash_style", D_enum("MSO_LINE_DASH_STYLE"),
             [E("MSO_LINE_DASH_STYLE", "DASH_STYLE_MIXED"), 999983, "x"],
             none=NoneSem(None, _child(_ln, "a:prstDash", "a:custDash")), src="dml/line.py:48"),
@@ -980,7 +996,7 @@ def build_kinds():
     K.append(Kind("line-connector", "LineFormat", b_connector, sub=SH("line"), locate=loc_connector,
                   rows=[
         Row("width", D_int(0, 20116800, extra_bnd=(12700, 9525, 1)), [-1, 20116801, 1.5, "x"],
-            src="dml/line.py:83"),
+            default=(0, _attr(_ln, "w")), src="dml/line.py:83"),
         Row("dash_style", D_enum("MSO_LINE_DASH_STYLE"),
             [E("MSO_LINE_DASH_STYLE", "DASH_STYLE_MIXED"), 999983, "x"],
             none=NoneSem(None, _child(_ln, "a:prstDash", "a:custDash")), src="dml/line.py:48"),
@@ -993,8 +1009,9 @@ def build_kinds():
 
     # ---- Table flags (table.py:45-130), cells, rows, columns
     K.append(Kind("table", "Table", b_table, sub=SH("table"), locate=loc_table, rows=[
-        Row(p, D_bool(), OOD_BOOL, src="table.py") for p in
-        ("first_row", "first_col", "last_row", "last_col", "horz_banding", "vert_banding")]))
+        Row(p, D_bool(), OOD_BOOL, src="table.py", default=(False, _attr(lambda t: t._tbl.tblPr, a)))
+        for p, a in (("first_row", "firstRow"), ("first_col", "firstCol"), ("last_row", "lastRow"),
+                     ("last_col", "lastCol"), ("horz_banding", "bandRow"), ("vert_banding", "bandCol"))]))
     cm_ood = [1.5, "12", INT32_HI + 1, INT32_LO - 1]
     cm_dom = lambda d: D_int(0, INT32_HI, extra_bnd=(d, d - 1, d + 1, 91440, 45720))  # noqa: E731
     K.append(Kind("cell", "_Cell", b_table, sub=SH("table") + [["cell", 0, 0]], locate=loc_table, rows=[
@@ -1124,7 +1141,8 @@ def build_kinds():
                   locate=loc_bar_chart, cost=2, rows=base_plot_rows() + [
         # ST_GapAmount 0..500; "integer percentage of the bar width"
         Row("gap_width", D_int(0, 500, extra_bnd=(150, 149, 151)), [-1, 501, 1.5, "x", None],
-            src="chart/plot.py:134"),
+            default=(150, lambda o, ch: o._element.gapWidth is not None
+                     and o._element.gapWidth.get("val") is not None), src="chart/plot.py:134"),
         # "int value in range -100..100"
         Row("overlap", D_int(-100, 100, extra_bnd=(0, 1, -1)), [-101, 101, 1.5, "x", None],
             src="chart/plot.py:153"),
